@@ -247,9 +247,9 @@ def _nest_shard(item):
     from ..gen import nest
     idx, nshards, all8 = item
     part = new_part()
-    cases = list(nest.triples()) + list(nest.item_pairs()) + list(nest.deep())
+    cases = nest.catalogue()
     for k in range(idx, len(cases), nshards):
-        src = nest.build(*cases[k])
+        src = nest.build_any(cases[k])
         if src is None:
             continue
         cfgs = env.ALL_CFGS if all8 else [env.ALL_CFGS[k % 8], env.ALL_CFGS[(k + 3) % 8]]
